@@ -292,6 +292,28 @@ theorem v2v_eq_ref_then_idx (fromA toA : Aff) (shape : Ax → Int) (pts : List V
     intro p _
     simp [Aff.comp_apply]
 
+/-- **The 4×4 inverse is the affine inverse.**  For every invertible affine matrix (`A.inv = .ok B`,
+i.e. `det ≠ 0`): the model's inverse `B` (adjugate / determinant, with translation `-L⁻¹ t`), written
+as a 4×4 matrix, is a two-sided inverse of the 4×4 affine matrix, and it is the *only* one — any
+4×4 matrix that inverts the affine matrix from either side, in particular whatever `np.linalg.inv`
+computes for `inverse_affine`, equals it entry by entry. -/
+theorem inverse4_eq_affine_inverse (A B : Aff) (h : A.inv = .ok B) :
+    B.hom.mul A.hom = M4.one ∧ A.hom.mul B.hom = M4.one ∧
+    ∀ M : M4, (M.mul A.hom = M4.one ∨ A.hom.mul M = M4.one) → M = B.hom :=
+  ⟨(Aff.hom_inv h).1, (Aff.hom_inv h).2, fun M hM => Aff.inv4_unique h M hM⟩
+
+/-- Every affine matrix with non-zero determinant is invertible in the model. -/
+theorem affine_invertible_of_det (A : Aff) (h : A.det ≠ 0) : ∃ B, A.inv = .ok B := Aff.inv_of_det h
+
+/-- **The transformer as the code computes it**: `self._affine = to.inverse_affine @ from.affine` as
+a product of 4×4 matrices with *any* 4×4 inverse `I4` of the target's affine matrix, applied to
+`[x, y, z, 1]` and cut to three rows, is the model's `(inv ∘ from)` — the map of
+`v2v_eq_via_reference`. -/
+theorem v2v_matrix_form (fromA toA inv : Aff) (hinv : toA.inv = .ok inv) (I4 : M4)
+    (hI : I4.mul toA.hom = M4.one ∨ toA.hom.mul I4 = M4.one) (p : V3) :
+    (I4.mul fromA.hom).applyPt p = (inv.comp fromA).apply p := by
+  rw [Aff.inv4_unique hinv I4 hI, ← Aff.hom_comp, Aff.hom_applyPt]
+
 /-! ## Clause 4: bounds checks -/
 
 /-- **Bounds check of `map_reference_to_indices`**: it refuses (RuntimeError) iff some point really
